@@ -84,7 +84,7 @@ def ev_call(E, node, st):
             kw = {k.arg: E.ev1p(k.value, st) for k in call.keywords}
             qn = locate.qualname_of(cal.obj) if isinstance(cal, PyObj) else (f"opaque.{cal.name}" if isinstance(cal, BoundM) else None)
             c = E.reg.contracts.get(qn)
-            if c is None or not c.pure:
+            if c is None or not (c.pure or c.det_raise):
                 raise OutsideSubset(f"raised_by on {qn}: not a pure assumed contract")
             if isinstance(cal, BoundM):
                 args = [cal.recv] + args
@@ -216,6 +216,15 @@ def dispatch(E, fv, args, kw, st, node):
                 yield from call_repo(E, fn, qn, args, kw, st, dropped, node)
             return
         yield from unknown_call(E, qn or repr(o), args, kw, st, node)
+        return
+    if isinstance(fv, SVal) and fv.ty is OPAQUE:
+        c = E.reg.contracts.get("opaque.__call__")
+        if c is not None:
+            if kw and c.params is None:
+                pass
+            yield from apply_contract(E, c, None, [fv] + list(args), kw, st, node)
+        else:
+            yield from unknown_call(E, "call of an opaque value", args, kw, st, node)
         return
     raise OutsideSubset(f"call of {fv!r}")
 
@@ -616,7 +625,7 @@ def apply_contract(E, c, fn, args, kw, st, node, recv_lv=None):
         s = st.copy()
         if cond is not None:
             cb = eval_spec(E, cond, s, frame)
-        elif c.pure:
+        elif c.pure or c.det_raise:
             cb = _uf_of_args(E, f"raises_{name}_{_m(qn)}", frame, z3.BoolSort(), st)
         else:
             cb = z3.Const(E.fresh_name(f"raises_{name}_{_m(qn)}"), z3.BoolSort())
@@ -635,7 +644,7 @@ def apply_contract(E, c, fn, args, kw, st, node, recv_lv=None):
             for post in ex[3]:
                 s.assume(eval_spec(E, post, s, fr3, old=pre))
         E.raise_exc(s, exc_v)
-        if mode == "iff" or c.pure:
+        if mode == "iff" or c.pure or c.det_raise:
             st.assume(z3.Not(cb))
     # normal exit
     frame = dict(frame)
